@@ -1,5 +1,7 @@
 import RainModel.Model.InfoDownloader
 import RainModel.Lemmas.InfoDownloader
+import RainModel.Model.Adopt
+import RainModel.Lemmas.Adopt
 /-!
 C13 — magnet metadata is adopted only if it hashes to the link's info-hash.
 Property theorems only; helper lemmas live in `Lemmas/`.
@@ -115,5 +117,90 @@ theorem id_done_premature_by_repeat :
     let ops := [Op.req 2, .got 0 [1, 2], .got 0 [1, 2]]
     done (run 2 (newWith 2 4) ops) = true ∧ (run 2 (newWith 2 4) ops).bytes = [1, 2, 0, 0] ∧
     ¬ ((accepted 2 (newWith 2 4) ops).map (·.1)).Nodup := by decide
+
+/-! ## Adoption (`torrent/torrent_metadataextension.go`, `torrent_infodownload.go`) -/
+section Adopt
+open Rain.Adopt
+variable {Hash : Type} [DecidableEq Hash]
+
+/-- **adopt_only_if_hash.** For every hash function `H`, every info-hash, every behaviour of
+`parseInfo`/`WriteInfo`, every configuration, and **every history** of connects, extension
+handshakes, metadata data/reject messages (any index, any size, any duplication, from any number
+of peers), snub time-outs and disconnects, with every resolution of the map-iteration
+nondeterminism: if the torrent ends up with metadata `b`, then `H b = infoHash`. -/
+theorem adopt_only_if_hash (env : Env Hash) (es : List Event) (b : Bytes) :
+    (Adopt.run env State.init es).info = some b → env.H b = env.infoHash :=
+  (inv_run env es State.init (inv_init env)).hash b
+
+/-- The decision function on its own: it answers `adopt` (or sets `info` while stopping on a
+resume-write error) only if the assembled bytes hash to the info-hash, and never for a private
+torrent or unparsable bytes. -/
+theorem decide_adopt_iff (env : Env Hash) (bytes : Bytes) :
+    (decide_ env bytes = .adopt ↔
+      env.H bytes = env.infoHash ∧ env.parseInfo bytes = some false ∧ env.writeOk bytes = true) ∧
+    (∀ r, decide_ env bytes = .stop r true → env.H bytes = env.infoHash) := by
+  unfold decide_
+  constructor
+  · by_cases hH : env.H bytes = env.infoHash
+    · simp only [hH, ne_eq, not_true_eq_false, ↓reduceIte, true_and]
+      cases env.parseInfo bytes with
+      | none => simp
+      | some pv => cases pv <;> simp
+    · simp [hH]
+  · intro r
+    by_cases hH : env.H bytes = env.infoHash
+    · intro _; exact hH
+    · simp [hH]
+
+/-- **size_cap.** For every history and every next event, every `RequestMetadataPiece(i)` the
+client sends goes to a connected peer whose extension handshake announced a metadata size with
+`0 < size ≤ MaxMetadataSize` (and `ut_metadata` support), and `i` is a valid piece index for that
+size.  Together with the decoder's clamp this covers negative, zero and oversized announcements. -/
+theorem size_cap (env : Env Hash) (es : List Event) (e : Event) (p : PeerId) (i : Nat) :
+    let s := Adopt.run env State.init es
+    Out.request p i ∈ (Adopt.step env s e).2 →
+    ∃ pe ∈ (Adopt.step env s e).1.peers, pe.id = p ∧ ∃ h, pe.hs = some h ∧
+      0 < h.msize ∧ h.msize ≤ env.maxSize ∧ h.hasMeta = true ∧
+      i < numBlocks blockSize (peerMetadataSize h) := by
+  intro s hmem
+  have hI := inv_run env es State.init (inv_init env)
+  obtain ⟨pe, hpe, hid, h, hh, hg, hi⟩ := (step_spec env s e hI).2 _ hmem p i rfl
+  exact ⟨pe, hpe, hid, h, hh, hg.1, hg.2.1, hg.2.2, hi⟩
+
+/-- With `MaxMetadataSize < 2^32` (default 30 MiB) the buffer allocated for such a peer has exactly
+the announced size, hence at most `MaxMetadataSize` bytes. -/
+theorem size_cap_alloc (h : Handshake) (maxSize : Int) (hm : maxSize < 2 ^ 32)
+    (h0 : 0 < h.msize) (h1 : h.msize ≤ maxSize) :
+    (new (peerMetadataSize h)).bytes.length = h.msize.toNat := by
+  simp only [new, newWith, List.length_replicate, peerMetadataSize]
+  rw [Int.emod_eq_of_lt (by omega) (by omega)]
+
+/-- The slice-bounds panic of `GotBlock` is unreachable in every history. -/
+theorem metadata_never_panics (env : Env Hash) (es : List Event) :
+    (Adopt.run env State.init es).panicked = false :=
+  (inv_run env es State.init (inv_init env)).nopanic
+
+/-- Non-vacuity: with the identity as "hash", block size 16 KiB and a 3-byte info, a lying peer
+(1) is dropped on hash mismatch and an honest peer (2) gets the metadata adopted; requests are
+really sent. -/
+def demoEnv : Env Bytes :=
+  { H := id, infoHash := [7, 8, 9], parseInfo := fun _ => some false, writeOk := fun _ => true,
+    queue := fun _ => 2, maxSize := 100, parallel := 1 }
+
+example :
+    let es := [Event.connect 1, .connect 2, .handshake 1 3 true [], .handshake 2 3 true [],
+               .data 1 0 [1, 1, 1] [], .data 2 0 [7, 8, 9] []]
+    (Adopt.run demoEnv State.init es).info = some [7, 8, 9] ∧
+    (Adopt.step demoEnv (Adopt.run demoEnv State.init (es.take 2)) (es.getD 2 (.connect 0))).2 = [Out.request 1 0] ∧
+    (Adopt.step demoEnv (Adopt.run demoEnv State.init (es.take 4)) (es.getD 4 (.connect 0))).2 =
+      [Out.closePeer 1, Out.request 2 0] := by decide
+
+/-- Non-vacuity of the cap: announcements 0, −5 (clamped) and 101 > max are never asked. -/
+example :
+    let es := [Event.connect 1, .connect 2, .connect 3, .handshake 1 0 true [], .handshake 2 (-5) true [],
+               .handshake 3 101 true []]
+    (Adopt.run demoEnv State.init es).dls = [] := by decide
+
+end Adopt
 
 end Rain.Props.C13
